@@ -302,6 +302,30 @@ def fired {ρ ι : Type} (env : ρ → Val) : List (ι × List (Expr ρ)) → Ex
     | .ok _, .error e => .error e
     | .ok f, .ok more => .ok (if f then m :: more else more)
 
+/-- one iteration of a collecting loop `for v in xs: if c1: out.append(e1) elif c2: out.append(e2) …`: the value
+appended (`none` = no branch taken) -/
+def appended {ρ : Type} (env : ρ → Val) : List (Expr ρ × Expr ρ) → Except Err (Option Val)
+  | [] => .ok Option.none
+  | (c, e) :: rest =>
+    match eval env .none c with
+    | .error err => .error err
+    | .ok x =>
+      if truthy x then
+        match eval env .none e with
+        | .error err => .error err
+        | .ok v => .ok (some v)
+      else appended env rest
+
+/-- the list such a loop returns, one environment per item -/
+def collected {ρ : Type} (branches : List (Expr ρ × Expr ρ)) : List (ρ → Val) → Except Err (List Val)
+  | [] => .ok []
+  | env :: rest =>
+    match appended env branches, collected branches rest with
+    | .error e, _ => .error e
+    | .ok _, .error e => .error e
+    | .ok (some v), .ok vs => .ok (v :: vs)
+    | .ok Option.none, .ok vs => .ok vs
+
 /-- optional text as a Python value -/
 def ofOptStr : Option Str → Val
   | some s => .str s
